@@ -751,6 +751,12 @@ func (cfg *Config) wordFields(wps []syntax.WordPart) ([][]fieldPart, error) {
 				}
 			}
 			allowEmpty = true
+			if len(wp.Parts) == 0 {
+				// "" adds nothing to the field but makes it exist,
+				// even if followed by an expansion starting with IFS.
+				curField = append(curField, fieldPart{quote: quoteDouble})
+				continue
+			}
 			wfield, err := cfg.wordField(wp.Parts, quoteDouble)
 			if err != nil {
 				return nil, err
